@@ -539,6 +539,8 @@ def with_history(c, rng):
     nd, nv, sh = len(c["sh"]), c["nvdim"], c["sh"]
     ncell = math.prod(sh)
     steps = []
+    cur = list(sh)        # cells per axis as the history proceeds
+    unsure = False
     pow2 = [F(1, 4), F(1, 2), F(2), F(4), F(-1), F(-2), F(-1, 2)]
     for _ in range(rng.randint(1, 3)):
         kind = rng.choice(["mesh_scale", "mesh_scale", "mesh_translate", "region_scale", "region_translate",
@@ -550,11 +552,16 @@ def with_history(c, rng):
             steps.append([kind, [g.qs(F(rng.randint(-12, 12), 4)) for _ in range(nd)]])
         elif kind == "field_rot" and nd >= 2:
             a, b = rng.sample(range(nd), 2)
-            steps.append([kind, a, b, rng.choice([1, 1, 2, 3, -1, 5])])
+            k = rng.choice([1, 1, 2, 3, -1, 5])
+            steps.append([kind, a, b, k])
+            if k % 2 and nv == 1:       # (a vector field may refuse the turn; then nothing changes)
+                cur[a], cur[b] = cur[b], cur[a]
+            elif k % 2:
+                unsure = True
         elif kind == "mesh_rot" and nd >= 2:
             a, b = rng.sample(range(nd), 2)
             # an odd turn of the mesh alone keeps the field consistent only if the two axes have equal n
-            k = rng.choice([1, 3, -1]) if sh[a] == sh[b] else 2
+            k = rng.choice([1, 3, -1]) if (cur[a] == cur[b] and not unsure) else 2
             steps.append([kind, a, b, k])
         elif kind == "array_write":
             steps.append([kind, rng.choice(["add_comp0", "first_cell", "times"]), rng.choice([2, 3, -4])])
